@@ -93,11 +93,13 @@ package fiber
 // chain for an unknown method (C07). The explicit panic (AcquireCtx handing out a foreign context type) is
 // not part of this property: nosafety panic.
 //@ func (*App).defaultRequestHandler
-//@   props C08 C07 C05
+//@   props C08 C07 C05 C12
 //@   nosafety panic
 //@   requires fresh-request: rctx != nil && ehCalls == 0 && sentStatus == 0
 //@   atcall (*App).next: [C07] method-known: ctx.methodInt != -1
 //@   atcall (*App).next: [C05] context-state-from-this-request: chainEntry(ctx, rctx)
+//@   atcall (*Redirect).parseAndClearFlashMessages: [C12] flash-parsed-for-this-request: r == ctx.redirect && r.c == ctx
+//@   atcall (*App).next: [C12] no-flash-header-no-messages: !called((*Redirect).parseAndClearFlashMessages) ==> len(ctx.flashMessages) == 0
 //@   atcall (*App).ErrorHandler: only-the-chain-error-once: err != nil && ehCalls == 0
 //@   atcall (*DefaultCtx).SendStatus: 501-unknown-method-500-failed-handler: (status == StatusNotImplemented && ctx.methodInt == -1 && !called((*App).next)) || (status == StatusInternalServerError && catch != nil && catch == ehRet)
 //@   ensures [C07] unknown-method-501: !called((*App).next) ==> sentStatus == StatusNotImplemented
@@ -107,10 +109,11 @@ package fiber
 
 // The same funnel for custom contexts (all context state is reached through the CustomCtx interface).
 //@ func (*App).customRequestHandler
-//@   props C08 C07
+//@   props C08 C07 C12
 //@   nosafety panic
 //@   requires fresh-request: rctx != nil && ehCalls == 0 && sentStatus == 0
 //@   atcall (*App).nextCustom: [C07] method-known: last((*App).methodInt) != -1
+//@   atcall (*Redirect).parseAndClearFlashMessages: [C12] flash-parsed-for-this-request: true
 //@   atcall (*App).ErrorHandler: only-the-chain-error-once: err != nil && ehCalls == 0
 //@   atcall CustomCtx.SendStatus: 501-unknown-method-500-failed-handler: (status == StatusNotImplemented && last((*App).methodInt) == -1 && !called((*App).nextCustom)) || (status == StatusInternalServerError && catch != nil && catch == ehRet)
 //@   ensures [C07] unknown-method-501: !called((*App).nextCustom) ==> sentStatus == StatusNotImplemented
